@@ -226,11 +226,33 @@ def half_lookup(value, env, halfname):
 
 
 # ---------------------------------------------------------------------- per-function extractors
+ALLOWED_DECORATORS = {"allowed_mesh_types"}
+
+
 def params(fn, k):
+    """positional parameter names of an anchored callable; fails closed on decorators other than the type guard (a caching or
+    wrapping decorator changes what a call returns) and on defaults that are not immutable constants"""
+    for d in fn.decorator_list:
+        name = T.dotted(d.func) if isinstance(d, ast.Call) else T.dotted(d)
+        expect(name in ALLOWED_DECORATORS, fn, "unexpected decorator %r on %s" % (name, fn.name))
     a = [x.arg for x in fn.args.args]
     expect(len(a) == k and not fn.args.vararg and not fn.args.kwarg and not fn.args.kwonlyargs, fn,
            "unexpected signature of %s" % fn.name)
+    for d in fn.args.defaults:
+        expect(isinstance(d, ast.Constant) and isinstance(d.value, (int, float, bool, str, type(None))), fn,
+               "default argument of %s is not an immutable constant" % fn.name)
     return a
+
+
+def int_default(fn, name):
+    """the integer default of parameter `name` (must exist)"""
+    names = [x.arg for x in fn.args.args]
+    nd = len(fn.args.defaults)
+    expect(name in names and names.index(name) >= len(names) - nd, fn, "%s has no default for %s" % (fn.name, name))
+    d = fn.args.defaults[names.index(name) - (len(names) - nd)]
+    expect(isinstance(d, ast.Constant) and isinstance(d.value, int) and not isinstance(d.value, bool), fn,
+           "default of %s.%s is not an integer" % (fn.name, name))
+    return d.value
 
 
 def tr_split_edge(tree, D):
@@ -468,6 +490,7 @@ def tr_loop(tree, D):
            "expected `self.triangulate()` then the refinement loop")
     cnt, body = range_loop_count(b[1], Env(ints={n: "n"}))
     D["loop_iters"] = ("(n : Z) : Z", cnt)
+    D["loop_default_n"] = (": Z", str(int_default(fn, n)))
     expect(len(body) == 8, b[1], "refinement loop does not have the expected 8 statements")
     new = new_data_prologue(body, M, b[1])
     half = dict_init(body[2])
@@ -510,6 +533,7 @@ def tr_tri6(tree, D):
     expect(len(b) == 1, fn, "expected a single loop")
     cnt, body = range_loop_count(b[0], Env(ints={rep: "r"}))
     D["t6_iters"] = ("(r : Z) : Z", cnt)
+    D["t6_default_r"] = (": Z", str(int_default(fn, rep)))
     codes = []
     for s in body:
         if is_method_call(s, slf + ".subdivide_triangles_3quads", 0) is not None:
@@ -644,6 +668,9 @@ CLEAR_CODE = {"face_corners": 1, "cell_corners": 2, "cell_faces": 3}
 
 def tr_block(tree, cls, D, prefix):
     """__enter__ / __exit__ of an editing block"""
+    init = T.find_def(tree, cls + ".__init__", REL)
+    params(init, 3)
+    expect(not T.find_def(tree, cls, REL).decorator_list, init, "unexpected class decorator on " + cls)
     en = T.find_def(tree, cls + ".__enter__", REL)
     (slf,) = params(en, 1)
     M = slf + ".mesh"
@@ -677,6 +704,7 @@ def tr_block(tree, cls, D, prefix):
         expect(not pre, en, "unexpected statements before the re-wrap in __enter__")
     D[prefix + "_enter_clears"] = (": list Z", "[" + "; ".join(str(x) for x in cleared) + "]")
     ex = T.find_def(tree, cls + ".__exit__", REL)
+    params(ex, 4)
     slf = ex.args.args[0].arg
     M = slf + ".mesh"
     b = T.body_nodoc(ex)
@@ -841,8 +869,8 @@ ORDER = ["se_mid", "se_replace", "se_append",
          "tf_branch", "tf_quad_replace", "tf_quad_faces", "tf_quad_edges",
          "fan_bary", "fan_replace", "fan_lo", "fan_hi", "fan_face", "fan_edge",
          "tri_needs",
-         "loop_iters", "loop_mid", "loop_key", "loop_keys", "loop_tris", "loop_edges",
-         "t6_iters", "t6_body",
+         "loop_iters", "loop_default_n", "loop_mid", "loop_key", "loop_keys", "loop_tris", "loop_edges",
+         "t6_iters", "t6_default_r", "t6_body",
          "q3_mid", "q3_key", "q3_halves", "q3_bary", "q3_keys", "q3_quads", "q3_spokes",
          "sd_isolated", "sd_problem",
          "surf_enter_clears", "surf_exit_dim", "vol_enter_clears", "vol_exit_dim",
